@@ -127,9 +127,24 @@ theorem import_values_welltyped_ok (l : List Helm.Values.Val)
     simp only [Helm.ImportValues.outcome, he]
     exact ih (fun x hx => h x (List.mem_cons_of_mem _ hx))
 
-/-- ... a wrongly typed `child` does (known finding C20:import-values-type-assertion). -/
-theorem counterexample_import_values :
-    Helm.ImportValues.outcome [.tbl (.cons "child" (.num "1") (.cons "parent" (.str "p") .nil))] = .panic := by
+/-- ... and ill-typed ones are an error, not a crash (they were a crash on the pinned tree:
+repaired in /repo, see known_findings.json). -/
+theorem import_values_never_panics (l : List Helm.Values.Val) : Helm.ImportValues.outcome l ≠ .panic := by
+  induction l with
+  | nil => simp [Helm.ImportValues.outcome]
+  | cons e r ih =>
+    unfold Helm.ImportValues.outcome
+    cases he : Helm.ImportValues.entryOutcome e with
+    | ok => simpa using ih
+    | err => simp
+    | panic =>
+      exfalso
+      cases e with
+      | tbl t => simp [Helm.ImportValues.entryOutcome] at he; split at he <;> cases he
+      | _ => simp [Helm.ImportValues.entryOutcome] at he
+
+theorem import_values_illtyped_is_error :
+    Helm.ImportValues.outcome [.tbl (.cons "child" (.num "1") (.cons "parent" (.str "p") .nil))] = .err := by
   rfl
 
 /-! ## archive entry names and sizes: total functions, no crash by construction -/
